@@ -1098,14 +1098,13 @@ namespace Dune {
       }
     }else{
 
-      int oldPos=position;
-      // Two index sets received
-      unpackIndices(*receive, noRemoteSource, destPairs, destPublish,
+      // Two index sets received. If we use only one index set ourselves,
+      // destPairs aliases sourcePairs and holds sourcePublish entries.
+      unpackIndices(*receive, noRemoteSource, destPairs,
+                    sendTwo ? destPublish : sourcePublish,
                     p_in, type, &position, bufferSize, fromOurSelf);
-      if(!sendTwo)
-        //unpack source entries again as destination entries
-        position=oldPos;
 
+      // the remote destination entries follow the remote source entries
       send = new RemoteIndexList();
       unpackIndices(*send, noRemoteDest, sourcePairs, sourcePublish,
                     p_in, type, &position, bufferSize, fromOurSelf);
